@@ -279,3 +279,73 @@ Example job_iter_example :
   let n := add_timer (add_timer (init_node 1 None None) 0 1000 (TApp 1) true) 0 5000 (TApp 2) false in
   timers_wf n /\ fres (job_iter n 1000) = RDone 1000 /\ fres (job_iter n 300) = RDone 700.
 Proof. split; [|split; vm_compute; reflexivity]. apply add_timer_wf. apply add_timer_wf. split; [constructor|intros t []]. Qed.
+
+(* ---------------------------------------------------------------- the premise is an invariant *)
+Lemma wf_upd n id dl : timers_wf n -> timers_wf (set_timers n (upd_timer_deadline (n_timers n) id dl)).
+Proof.
+  intros [Hnd Hlt]. unfold timers_wf. cbn [n_timers n_nextid set_timers]. unfold upd_timer_deadline.
+  assert (E : map tm_id (map (fun t => if tm_id t =? id
+                 then {| tm_delta := tm_delta t; tm_cb := tm_cb t; tm_deadline := dl; tm_ret := tm_ret t; tm_id := tm_id t |}
+                 else t) (n_timers n)) = map tm_id (n_timers n)).
+  { rewrite map_map. apply map_ext. intros t. destruct (tm_id t =? id); reflexivity. }
+  split; [rewrite E; exact Hnd|].
+  intros t Ht. apply in_map_iff in Ht. destruct Ht as [t0 [Et Ht0]]. specialize (Hlt t0 Ht0).
+  destruct (tm_id t0 =? id); subst t; cbn [tm_id]; exact Hlt.
+Qed.
+Lemma wf_remove_first n ev : timers_wf n -> timers_wf (set_timers n (remove_first ev (n_timers n))).
+Proof.
+  intros [Hnd Hlt]. unfold timers_wf. cbn [n_timers n_nextid set_timers]. split.
+  - apply NoDup_ids_remove_first. exact Hnd.
+  - intros t Ht. apply Hlt. apply (In_remove_first ev). exact Ht.
+Qed.
+Lemma wf_same n n' : n_timers n' = n_timers n -> n_nextid n' = n_nextid n -> timers_wf n -> timers_wf n'.
+Proof. intros Et Ei [Hnd Hlt]. unfold timers_wf. rewrite Et, Ei. split; assumption. Qed.
+
+Lemma timer_pass_wf P now : forall snap nw n k,
+  timers_wf n -> (forall n' nw', timers_wf n' -> post P (k n' nw')) -> post P (timer_pass snap now nw n k).
+Proof.
+  induction snap as [|ev rest IH]; intros nw n k Hwf Hk; cbn [timer_pass]; [apply Hk; exact Hwf|].
+  destruct (negb (timer_in ev (n_timers n))); [apply IH; assumption|].
+  destruct (tm_deadline ev >? now); [apply IH; assumption|].
+  assert (Hafter : forall (ret : bool) n1, timers_wf n1 ->
+            post P (if ret
+                    then timer_pass rest now (if nw >? advance_deadline (tm_deadline ev) (tm_delta ev) now
+                                              then advance_deadline (tm_deadline ev) (tm_delta ev) now else nw)
+                           (set_timers n1 (upd_timer_deadline (n_timers n1) (tm_id ev)
+                                             (advance_deadline (tm_deadline ev) (tm_delta ev) now))) k
+                    else if timer_in ev (n_timers n1)
+                         then timer_pass rest now nw (set_timers n1 (remove_first ev (n_timers n1))) k
+                         else timer_pass rest now nw n1 k)).
+  { intros ret n1 H1. destruct ret; [apply IH; [apply wf_upd; exact H1|exact Hk]|].
+    destruct (timer_in ev (n_timers n1)); apply IH; try exact Hk; [apply wf_remove_first; exact H1|exact H1]. }
+  cbv zeta. destruct (tm_cb ev) as [cid|i].
+  - apply post_emit. apply (Hafter (tm_ret ev) n). exact Hwf.
+  - apply claim_async_frame. intros n1 t T1 It Id1 W1 R1 S1. apply (Hafter false n1).
+    destruct Hwf as [Hnd Hlt]. unfold timers_wf. rewrite T1, Id1. split.
+    + rewrite map_app. cbn [map]. apply NoDup_snoc; [exact Hnd|]. rewrite It.
+      intro Hin. apply in_map_iff in Hin. destruct Hin as [t0 [E Ht0]]. specialize (Hlt t0 Ht0). lia.
+    + intros t' Ht'. apply in_app_or in Ht'. destruct Ht' as [Ht'|[Ht'|[]]]; [specialize (Hlt t' Ht'); lia|subst t'; lia].
+Qed.
+
+(* the registrations stay well-formed over job iterations, add_timer and remove_timer: the premise of T12.7 holds in every
+   state these operations reach from a node without timers *)
+Theorem job_iter_keeps_wf n now : tnodup (n_rcv n) -> tnodup (n_snd n) -> timers_wf n ->
+  match flat (job_iter n now) with (n', _, RDone _) => timers_wf n' | (_, _, RRaise _) => True end.
+Proof.
+  intros Hr Hs Hwf. unfold job_iter.
+  apply (dll_job_never_oversleeps (fun n' _ => timers_wf n')); [exact Hr|exact Hs|].
+  intros n1 nw1 L1 T1 R1 S1. unfold tm_part in T1. injection T1 as ET EI EW.
+  apply timer_pass_wf; [apply (wf_same n n1); assumption|].
+  intros n2 nw2 H2. apply post_done. exact H2.
+Qed.
+
+Lemma remove_timer_wf n cb : timers_wf n -> timers_wf (remove_timer n cb).
+Proof.
+  intros [Hnd Hlt]. unfold timers_wf, remove_timer. cbn [n_timers n_nextid wake set_timers].
+  set (victims := filter (fun t => tcb_eqb (tm_cb t) cb) (n_timers n)). clearbody victims.
+  revert Hnd Hlt. generalize (n_timers n) as l. induction victims as [|v vs IH]; intros l Hnd Hlt; cbn [fold_left]; [split; assumption|].
+  apply IH; [apply NoDup_ids_remove_first; exact Hnd|intros t Ht; apply Hlt; apply (In_remove_first v); exact Ht].
+Qed.
+
+Lemma init_wf maxp civ biv : timers_wf (init_node maxp civ biv).
+Proof. split; [constructor|intros t []]. Qed.
